@@ -16,6 +16,11 @@
 (***************************************************************************)
 EXTENDS Integers, FiniteSets, Sequences, TLC
 
+CONSTANTS MinTimeout,    \* notify.MinTimeout: a flush gets at least this long (10 s)
+          RetrySlack,    \* one maximal retry back-off (1.5 x 60 s)
+          SchedSlack,    \* scheduling slack of the C01 bound
+          GapBound(_)    \* upper bound of the retry gap after the k-th failed attempt
+
 \* the alert universe of the scenarios (mirrored in harness/e2e)
 Alerts == {"A1", "A2", "A3", "A4"}
 Lbl == [ A1 |-> [alertname |-> "X", g |-> "1", sev |-> "warn", a |-> "x"],
@@ -73,13 +78,13 @@ FailingDuring(i, t0, t1) == \E w \in SeqToSet(cfg.windows) : w.integ = i - 1 /\ 
 
 \* the delivery slack of C01: a hung flush may hold the run loop until its
 \* deadline, one maximal retry back-off, scheduling slack
-Timeout == Max2(cfg.gi, 10000)
-Bound == Max2(cfg.gw, cfg.gi) + (Timeout - cfg.gi) + 90000 + 2000
+Timeout == Max2(cfg.gi, MinTimeout)
+Bound == Max2(cfg.gw, cfg.gi) + (Timeout - cfg.gi) + RetrySlack + SchedSlack
 
 \* upper bounds of the retry gap after the k-th failed attempt:
 \* 1.5 x min(500 x 1.5^(k-1), 60 s), rounded up
 Backoff == <<750, 1125, 1688, 2532, 3797, 5696, 8543, 12815, 19222, 28833, 43249, 64873, 90000>>
-GapBound(k) == (IF k <= Len(Backoff) THEN Backoff[k] ELSE 90000) + 5
+GapBoundMs(k) == (IF k <= Len(Backoff) THEN Backoff[k] ELSE 90000) + 5
 
 FiringOf(as)   == {as[i].l : i \in {j \in 1..Len(as) : as[j].status = "firing"}}
 ResolvedOf(as) == {as[i].l : i \in {j \in 1..Len(as) : as[j].status = "resolved"}}
